@@ -43,6 +43,8 @@ struct World {
     reg_meta: BTreeMap<u64, (u64, Vec<u64>, bool, bool)>, // addr, writers (empty+anyone flag), anyone, tainted (unverified merge)
     crdts: BTreeMap<u64, RegisterCrdt>,
     next_id: u64,
+    /// (clause, what) noticed while executing an op; reported by `oracle_episode` with the history
+    alarms: Vec<(String, String)>,
 }
 
 fn err_class(e: &ant_registers::Error) -> String {
@@ -75,7 +77,7 @@ impl World {
             RegisterAddress::new(XorName::from_content(b"meta-2"), owner),
         ];
         World { sks, addrs, ops: Default::default(), node_ids: Default::default(), regs: Default::default(),
-                reg_meta: Default::default(), crdts: Default::default(), next_id: 1 }
+                reg_meta: Default::default(), crdts: Default::default(), next_id: 1, alarms: vec![] }
     }
     fn fresh(&mut self) -> u64 {
         let i = self.next_id;
@@ -196,8 +198,16 @@ fn exec(w: &mut World, line: &str) -> String {
         }
         ["addop", r, o] => {
             let op = w.ops[&num(o)].op.clone();
-            match w.regs.get_mut(&num(r)).expect("reg").add_op(op) {
-                Ok(()) => "ok".into(),
+            let reg = w.regs.get_mut(&num(r)).expect("reg");
+            let before = reg.ops().len();
+            match reg.add_op(op) {
+                Ok(()) => {
+                    // add_op alone must never take a replica beyond the entry limit (merges can: known finding K-e)
+                    if before >= MAX_ENTRIES && reg.ops().len() > before {
+                        w.alarms.push(("add-op-respects-limit".into(), format!("`{line}`: add_op accepted a new operation into replica {r} which already held {before} operations (limit {MAX_ENTRIES})")));
+                    }
+                    "ok".into()
+                }
                 Err(e) => format!("err {}", err_class(&e)),
             }
         }
@@ -256,8 +266,13 @@ fn exec(w: &mut World, line: &str) -> String {
                 w.node_ids.insert(node.hash(), id);
                 let op = RegisterOp::new(w.addrs[addr as usize - 1], node, &w.sks[src as usize - 1]);
                 w.ops.insert(id, OpInfo { op: op.clone(), addr, node: id, size: 32, source: src, sig_ok: true });
-                if w.regs.get_mut(&r).expect("reg").add_op(op).is_ok() {
+                let reg = w.regs.get_mut(&r).expect("reg");
+                let before = reg.ops().len();
+                if reg.add_op(op).is_ok() {
                     acc += 1;
+                    if before >= MAX_ENTRIES && reg.ops().len() > before {
+                        w.alarms.push(("add-op-respects-limit".into(), format!("`{line}`: add_op accepted a new operation into replica {r} which already held {before} operations (limit {MAX_ENTRIES})")));
+                    }
                 }
             }
             w.next_id = w.next_id.max(first + n);
@@ -331,6 +346,9 @@ fn signature_of(reg: &SignedRegister) -> bls::Signature {
 /// Model-independent statement of C06 on the real replicas (called at the end of an episode).
 fn oracle_episode(w: &mut World, history: &[String], out: &mut Out) {
     let hist = history.join(" ; ");
+    for (clause, what) in std::mem::take(&mut w.alarms) {
+        out.oracle_fail(&clause, &hist, &what);
+    }
     // (1) authorisation: every op held by an untainted replica is for this register, permitted, validly signed (unless anyone), within size
     for (r, reg) in &w.regs {
         let (addr, writers, anyone, tainted) = w.reg_meta[r].clone();
